@@ -24,7 +24,7 @@ type G struct {
 // New returns a generator with the default alphabets.
 func New(seed int64) *G {
 	return &G{
-		R:     rand.New(rand.NewSource(seed)),
+		R: rand.New(rand.NewSource(seed)),
 		// names sharing a prefix, names with '-' and digits; values that are long, repetitive, contain a tab, or are numbers
 		// outside the exact model (skipped by the validators when used numerically)
 		Elems: []string{"a", "b", "c", "ab", "a-1"},
@@ -534,7 +534,7 @@ func (g *G) NsDoc(max int) *vdoc.Doc {
 }
 
 // NsMaps are the namespace maps of the configurations (nil = Compile without a map).
-var NsMaps = []map[string]string{nil, {"p": u1, "q": u2}, {"p": u2}, {"r": u1, "p": u3}, {}, {"p": u1, "q": u1, "r": u3}}
+var NsMaps = []map[string]string{nil, {"p": u1, "q": u2}, {"p": u2}, {"r": u1, "p": u3}, {}, {"p": u1, "q": u1, "r": u3}, {"p": "", "q": u1}, {"p": u2, "pq": u1}}
 
 // NsPath draws a path whose name tests carry prefixes.
 func (g *G) NsPath() *xast.Expr {
